@@ -16,6 +16,11 @@ def run(ctx):
         # or whose recorded byte range is not the range its instructions occupy
         ctx.violation("CASM emitted for a Sierra statement contradicts the recorded ap change / range: " + f["why"],
                       dict(f, replay_cmd="./check C17 --tier %s" % ctx.tier), found_input=True)
+    for f in [f for f in r.get("negatives_accepted", []) if f["program"].startswith(("n_ref_", "n_fs_"))][:5]:
+        # ap-tracking dependent acceptance rules (references surviving an unknown ap change, frame state of locals):
+        # the template is invalid by construction, the real pipeline must reject it
+        ctx.violation("the real compiler accepts a Sierra program that breaks an ap-tracking rule (negative template %s)"
+                      % f["program"], dict(f, replay_cmd="./check C17 --tier %s" % ctx.tier), found_input=True)
     if r["model_rejects"] and not apf:
         m = r["model_rejects"][0]
         ctx.violation("the real compiler accepts programs whose ap-tracking annotations the verified checker rejects: %s"
